@@ -897,4 +897,369 @@ theorem raw_echo_reject_is_noop (d : Nat) (s : Topo) (r : RawOp) (h : (stepRawEc
   | none => rfl
   | some op => simp only [hd] at h ⊢; exact echo_reject_is_noop d s op h
 
+/-! ### 15. a delete that arrives as a tombstone (suspected defect, exhibited on the real code by the gated stream
+    `tombstone`, VERIF_C15_TOMBSTONE=prod; not part of the default differential runs) -/
+
+/-- with the identity of `convertible` every representation the code can convert behaves like the plain event. -/
+theorem applyEvAs_convertible (reg : Bool) (shape : Nat) (s : Topo) (e : Ev) (h : convertible reg shape = true) :
+    applyEvAs reg shape s e = applyEv s e := by simp [applyEvAs, h]
+
+/-- NewQuotaInformer asks for a TYPED informer, so a tombstone holds the typed object (shape 3): it is never converted,
+    whatever the scheme; an unstructured one (shape 2) needs the type in client-go's scheme (tie_event_object_conversion:
+    koord-manager does not register it). -/
+theorem tombstone_not_convertible : (∀ reg, convertible reg 3 = false) ∧ convertible false 2 = false ∧ convertible false 1 = false := by
+  decide
+
+/-- replica b misses the delete of parent 3 (the tombstone is dropped): it then ADMITS a child under the deleted parent,
+    which a replica that saw the delete rejects — "every parent exists" fails for the admitted objects. -/
+theorem tombstone_dropped_counterexample :
+    let b1 := onAdd init cxDept1                                   -- b learnt quota 3 from the informer
+    let bSeen := applyEvAs false 0 b1 (.del cxDept1)               -- plain delete event
+    let bLost := applyEvAs false 3 b1 (.del cxDept1)               -- the same delete as a tombstone
+    (validAdd 1 bSeen cxTeam false).2 = false ∧ (validAdd 1 bLost cxTeam false).2 = true ∧
+    (validAdd 1 bLost cxDept1 false).2 = false := by decide
+
+/-! ### 16. two reading notes decided on the unchanged tree (gated exhibits of the harness: VERIF_C15_ROOTPARENT=1,
+    VERIF_C15_STRICTROOT=1); the model behaves as the code does -/
+
+/-- (i) validateQuotaTopology returns at once for the root NAME: a create of koordinator-root-quota that carries a parent
+    label is admitted and recorded as a child of that parent — of itself, or of a quota that does not exist (this is why
+    `NotRootAdd` is a hypothesis of the Forest theorems). -/
+theorem root_with_parent_counterexample :
+    (step 1 init (.add { exRoot with parent := 0 } false)).2 = true ∧
+    isKid (step 1 init (.add { exRoot with parent := 0 } false)).1 0 0 = true ∧
+    (step 1 init (.add { exRoot with parent := 7 } false)).2 = true ∧
+    find (step 1 init (.add { exRoot with parent := 7 } false)).1.info 7 = none := by decide
+
+/-- (ii) checkMinQuotaValidate returns at once for ANY quota labelled is-root, also below the first level: under A
+    (min 4, child B min 2) a further child with min 3 is rejected, with is-root=true it is admitted and the plain sum
+    5 exceeds 4.  `MinSum` exempts the label wherever it sits, as the code does. -/
+theorem is_root_below_root_counterexample :
+    (step 1 exS (.add exD false)).2 = false ∧ (step 1 exS (.add { exD with treeRoot := true } false)).2 = true ∧
+    ¬ (childMinSum (step 1 exS (.add { exD with treeRoot := true } false)).1.info 3 0 ≤ exA.mn.val 0) := by decide
+
+
+/-! ### 17. the echo / replica theorems under the weaker hypothesis `NoFlagDrop`
+
+`FlagsKept` (§13) forbids every change of the two bypass labels by a label-only update.  Only DROPPING a label breaks
+`MinSum` (`flag_drop_counterexample`); gaining one makes the echo really change the record (so `handler_matches` /
+`echo_observably_idle` do not apply) but keeps `WF` (`relabel_preserves_WF`).  The `_nd` theorems restate §11–§12 with
+`NoFlagDrop`: a label-only update keeps every bypass label the recorded object carries. -/
+def NoFlagDrop (api : List QI) : Op → Prop
+  | .upd q _ _ => ∀ o, find api q.name = some o → sameFields o q = true →
+      (o.force = true → q.force = true) ∧ (o.treeRoot = true → q.treeRoot = true)
+  | _ => True
+
+theorem flagsKept_noFlagDrop {api : List QI} {op : Op} (h : FlagsKept api op) : NoFlagDrop api op := by
+  cases op with
+  | add q sw => trivial
+  | del n lp => trivial
+  | upd q sw hp =>
+    intro o hf hs
+    obtain ⟨h1, h2⟩ := h o hf hs
+    exact ⟨fun e => h1 ▸ e, fun e => h2 ▸ e⟩
+
+/-- either the request is covered by `FlagsKept`, or it is an update that takes the unchanged-fields shortcut. -/
+theorem op_cases (api : List QI) (op : Op) :
+    FlagsKept api op ∨ ∃ q sw hp o, op = .upd q sw hp ∧ find api q.name = some o ∧ sameFields o q = true := by
+  cases op with
+  | add q sw => exact Or.inl trivial
+  | del n lp => exact Or.inl trivial
+  | upd q sw hp =>
+    cases hf : find api q.name with
+    | none => left; intro o ho; rw [hf] at ho; cases ho
+    | some o =>
+      cases hs : sameFields o q with
+      | false => left; intro o' ho' hs'; rw [hf] at ho'; cases ho'; rw [hs] at hs'; cases hs'
+      | true => exact Or.inr ⟨q, sw, hp, o, rfl, hf, hs⟩
+
+/-! ### records that agree on everything but the two bypass labels -/
+
+/-- agreement on every field the clauses of `WF` other than `MinSum` look at. -/
+structure Sim (a b : QI) : Prop where
+  name     : a.name = b.name
+  parent   : a.parent = b.parent
+  isParent : a.isParent = b.isParent
+  tree     : a.tree = b.tree
+  ns       : a.ns = b.ns
+  mn       : a.mn = b.mn
+  mx       : a.mx = b.mx
+
+theorem Sim.refl (a : QI) : Sim a a := ⟨rfl, rfl, rfl, rfl, rfl, rfl, rfl⟩
+
+theorem sameFields_sim {o q : QI} (hn : o.name = q.name) (h : sameFields o q = true) : Sim o q := by
+  simp only [sameFields, Bool.and_eq_true, beq_iff_eq] at h
+  obtain ⟨⟨⟨⟨⟨⟨⟨⟨⟨⟨h1, h2⟩, h3⟩, h4⟩, h5⟩, h6⟩, _⟩, _⟩, _⟩, _⟩, _⟩ := h
+  exact ⟨hn, h1, h2, h3, h4, h5, h6⟩
+
+theorem replace_back {l : List QI} {o q : QI} (ho : o ∈ l) (hs : Sim o q)
+    (hb : byp q = false → byp o = false) {c' : QI} (hc : c' ∈ replace l q) :
+    ∃ c ∈ l, Sim c c' ∧ (byp c' = false → byp c = false) := by
+  rcases mem_replace hc with ⟨hcq, _⟩ | ⟨hc', _⟩
+  · subst hcq; exact ⟨o, ho, hs, hb⟩
+  · exact ⟨c', hc', Sim.refl _, id⟩
+
+theorem replace_fwd {l : List QI} {o q : QI} (hu : Uniq l) (ho : o ∈ l) (hs : Sim o q) {c : QI} (hc : c ∈ l) :
+    ∃ c' ∈ replace l q, Sim c c' := by
+  by_cases hn : c.name = q.name
+  · have : c = o := hu c hc o ho (hn.trans hs.name.symm)
+    subst this
+    exact ⟨q, mem_replace_self hc hs.name, hs⟩
+  · exact ⟨c, mem_replace_of_ne hc hn, Sim.refl _⟩
+
+theorem selfQ_sim {d : Nat} {a b : QI} (hs : Sim a b) (h : SelfQ d a) : SelfQ d b := by
+  unfold SelfQ at h ⊢
+  rw [← hs.mn, ← hs.mx]; exact h
+
+/-- the recorded topology with the record named `q.name` overwritten by `q`, nothing else touched. -/
+def relabel (s : Topo) (q : QI) : Topo := { s with info := replace s.info q }
+
+theorem kidSum_replace_le {d : Nat} {l : List QI} {o q : QI} (hnd : (l.map (·.name)).Nodup) (ho : o ∈ l) (hs : Sim o q)
+    (hb : byp q = false → byp o = false) (hnn : MinNonneg d l) (n k : Nat) (hk : k < d) :
+    kidSum (replace l q) n k ≤ kidSum l n k := by
+  have hu := uniq_of_nodup hnd
+  unfold kidSum
+  rw [sumF_replace hnd ⟨o, ho, hs.name⟩]
+  have h2 := sumF_replace (f := fun c => c.mn.val k) (P := fun c => c.parent == n && !byp c) (q := o) hnd ⟨o, ho, rfl⟩
+  rw [replace_self hu ho] at h2
+  rw [h2, hs.name]
+  have hfo : 0 ≤ o.mn.val k := hnn o ho k hk
+  simp only [← hs.parent, ← hs.mn]
+  cases hbq : byp q with
+  | true =>
+    simp only [Bool.not_true, Bool.and_false, Bool.false_eq_true, if_false]
+    split <;> omega
+  | false =>
+    simp only [hb hbq]
+    exact Int.le_refl _
+
+theorem relabel_WF {d : Nat} {s : Topo} {o q : QI} (hW : WF d s) (ho : o ∈ s.info) (hs : Sim o q)
+    (hb : byp q = false → byp o = false) : WF d (relabel s q) := by
+  have hF := hW.forest
+  have hu := uniq_of_nodup hF.nodup
+  have back : ∀ c' ∈ replace s.info q, ∃ c ∈ s.info, Sim c c' ∧ (byp c' = false → byp c = false) :=
+    fun c' hc => replace_back ho hs hb hc
+  have fwd : ∀ c ∈ s.info, ∃ c' ∈ replace s.info q, Sim c c' := fun c hc => replace_fwd hu ho hs hc
+  refine ⟨⟨?_, ?_, ?_, ?_, ?_⟩, ?_, ?_, ?_, ?_, ?_, ?_⟩
+  · show ((replace s.info q).map (·.name)).Nodup
+    rw [replace_names]; exact hF.nodup
+  · intro c' hc'
+    obtain ⟨c, hc, hsim, _⟩ := back c' hc'
+    rw [← hsim.name]; exact hF.nonzero c hc
+  · intro c' hc'
+    obtain ⟨c, hc, hsim, _⟩ := back c' hc'
+    rcases hF.parentOK c hc with h0 | ⟨p, hp, hpn, hpi⟩
+    · left; rw [← hsim.parent]; exact h0
+    · right
+      obtain ⟨p', hp', hps⟩ := fwd p hp
+      exact ⟨p', hp', by rw [← hps.name, ← hsim.parent]; exact hpn, by rw [← hps.isParent]; exact hpi⟩
+  · obtain ⟨r, hr0, hr⟩ := hF.ranked
+    refine ⟨r, hr0, ?_⟩
+    intro c' hc'
+    obtain ⟨c, hc, hsim, _⟩ := back c' hc'
+    rw [← hsim.name, ← hsim.parent]; exact hr c hc
+  · intro p c
+    show (p, c) ∈ s.kids ↔ ∃ x ∈ replace s.info q, x.name = c ∧ x.parent = p
+    rw [hF.kidsOK p c]
+    constructor
+    · rintro ⟨x, hx, hxn, hxp⟩
+      obtain ⟨x', hx', hsim⟩ := fwd x hx
+      exact ⟨x', hx', by rw [← hsim.name]; exact hxn, by rw [← hsim.parent]; exact hxp⟩
+    · rintro ⟨x', hx', hxn, hxp⟩
+      obtain ⟨x, hx, hsim, _⟩ := back x' hx'
+      exact ⟨x, hx, by rw [hsim.name]; exact hxn, by rw [hsim.parent]; exact hxp⟩
+  · intro n
+    show n ∈ s.hkeys ↔ n = 0 ∨ ∃ x ∈ replace s.info q, x.name = n
+    rw [hW.hkeys n]
+    constructor
+    · rintro (h0 | ⟨x, hx, hxn⟩)
+      · exact Or.inl h0
+      · obtain ⟨x', hx', hsim⟩ := fwd x hx
+        exact Or.inr ⟨x', hx', by rw [← hsim.name]; exact hxn⟩
+    · rintro (h0 | ⟨x', hx', hxn⟩)
+      · exact Or.inl h0
+      · obtain ⟨x, hx, hsim, _⟩ := back x' hx'
+        exact Or.inr ⟨x, hx, by rw [hsim.name]; exact hxn⟩
+  · intro c' hc'
+    obtain ⟨c, hc, hsim, _⟩ := back c' hc'
+    exact selfQ_sim hsim (hW.self c hc)
+  · intro p' hp' hbp k hk
+    obtain ⟨p, hp, hsim, hbb⟩ := back p' hp'
+    have h1 := hW.minSum p hp (hbb hbp) k hk
+    have h2 := kidSum_replace_le hF.nodup ho hs hb hW.self.nonneg p.name k hk
+    show kidSum (replace s.info q) p'.name k ≤ p'.mn.val k
+    rw [← hsim.name, ← hsim.mn]
+    omega
+  · intro c' hc' p' hp' hpc
+    obtain ⟨c, hc, hsc, _⟩ := back c' hc'
+    obtain ⟨p, hp, hsp, _⟩ := back p' hp'
+    have := hW.keys c hc p hp (by rw [hsp.name, hsc.parent]; exact hpc)
+    unfold KeysRel at this ⊢
+    rw [← hsp.mx, ← hsp.mn, ← hsc.mx, ← hsc.mn]; exact this
+  · intro c' hc' p' hp' hpc
+    obtain ⟨c, hc, hsc, _⟩ := back c' hc'
+    obtain ⟨p, hp, hsp, _⟩ := back p' hp'
+    have := hW.tree c hc p hp (by rw [hsp.name, hsc.parent]; exact hpc)
+    show p'.tree = c'.tree
+    rw [← hsp.tree, ← hsc.tree]; exact this
+  · intro n qn
+    show nsGet s.nsMap n = some qn ↔ ∃ x ∈ replace s.info q, x.name = qn ∧ n ∈ x.ns
+    rw [hW.ns n qn]
+    constructor
+    · rintro ⟨x, hx, hxn, hxs⟩
+      obtain ⟨x', hx', hsim⟩ := fwd x hx
+      exact ⟨x', hx', by rw [← hsim.name]; exact hxn, by rw [← hsim.ns]; exact hxs⟩
+    · rintro ⟨x', hx', hxn, hxs⟩
+      obtain ⟨x, hx, hsim, _⟩ := back x' hx'
+      exact ⟨x, hx, by rw [hsim.name]; exact hxn, by rw [hsim.ns]; exact hxs⟩
+
+theorem onUpdate_relabel {s : Topo} {o q : QI} (hfo : find s.info q.name = some o) (hs : Sim o q) :
+    onUpdate s o q = relabel s q := by
+  simp only [onUpdate, relabel, put_present hfo, hs.parent, hs.ns, bne_self_eq_false, Bool.false_eq_true, if_false]
+
+/-- a label-only update that does not drop a bypass label: the handler's overwrite keeps the record well-formed. -/
+theorem relabel_preserves_WF {d : Nat} {s : Topo} {o q : QI} (hW : WF d s) (hfo : find s.info q.name = some o)
+    (hsf : sameFields o q = true) (hf : o.force = true → q.force = true) (ht : o.treeRoot = true → q.treeRoot = true) :
+    WF d (onUpdate s o q) := by
+  obtain ⟨ho, hon⟩ := find_some hfo
+  have hs := sameFields_sim hon hsf
+  rw [onUpdate_relabel hfo hs]
+  refine relabel_WF hW ho hs ?_
+  intro hbq
+  unfold byp at hbq ⊢
+  rw [Bool.or_eq_false_iff] at hbq ⊢
+  constructor
+  · cases h : o.force with
+    | false => rfl
+    | true => rw [hf h] at hbq; exact absurd hbq.1 (by simp)
+  · cases h : o.treeRoot with
+    | false => rfl
+    | true => rw [ht h] at hbq; exact absurd hbq.2 (by simp)
+
+/-! ### one replica -/
+
+theorem echo_preserves_WF_nd (d : Nat) (s : Topo) (op : Op) (hW : WF d s) (hop : NotRootAdd op)
+    (hk : NoFlagDrop s.info op) (h : (stepEcho d s op).2 = true) : WF d (stepEcho d s op).1 := by
+  rcases op_cases s.info op with hfk | ⟨q, sw, hp, o, rfl, hfo, hsf⟩
+  · exact echo_preserves_WF d s op hW hop hfk h
+  · obtain ⟨hf, ht⟩ := hk o hfo hsf
+    have : stepEcho d s (.upd q sw hp) = (onUpdate s o q, true) := by
+      simp [stepEcho, step, validUpdate, evOf, hfo, hsf, applyEv]
+    rw [this]
+    exact relabel_preserves_WF hW hfo hsf hf ht
+
+def EchoOK' (d : Nat) : Topo → List Op → Prop
+  | _, [] => True
+  | s, op :: ops => NotRootAdd op ∧ NoFlagDrop s.info op ∧ EchoOK' d (stepEcho d s op).1 ops
+
+theorem history_echo_WF_nd (d : Nat) (ops : List Op) : ∀ s, WF d s → EchoOK' d s ops → WF d (runEcho d s ops) := by
+  induction ops with
+  | nil => intro s hs _; exact hs
+  | cons op ops ih =>
+    intro s hs hok
+    obtain ⟨hop, hk, hrest⟩ := hok
+    simp only [runEcho]
+    apply ih _ _ hrest
+    cases hres : (stepEcho d s op).2 with
+    | true => exact echo_preserves_WF_nd d s op hs hop hk hres
+    | false => rw [echo_reject_is_noop d s op hres]; exact hs
+
+theorem reachable_echo_WF_nd (d : Nat) (ops : List Op) (hok : EchoOK' d init ops) : WF d (runEcho d init ops) :=
+  history_echo_WF_nd d ops init (wf_init d) hok
+
+theorem echoOK_echoOK_nd (d : Nat) (ops : List Op) : ∀ s, EchoOK d s ops → EchoOK' d s ops := by
+  induction ops with
+  | nil => intro s _; trivial
+  | cons op ops ih => intro s h; exact ⟨h.1, flagsKept_noFlagDrop h.2.1, ih _ h.2.2⟩
+
+/-! ### two replicas -/
+
+/-- delivery of a label-only update event (no label dropped) to a replica in sync with the API store. -/
+theorem deliver_relabel {d : Nat} {flt : Ev → Bool} {x : Topo} {api : List QI} {o q : QI} (hf : FilterOK flt)
+    (wx : WF d x) (ix : x.info = api) (hfo : find api q.name = some o) (hsf : sameFields o q = true)
+    (h1 : o.force = true → q.force = true) (h2 : o.treeRoot = true → q.treeRoot = true) :
+    WF d (deliver flt x (.upd o q)) ∧ (deliver flt x (.upd o q)).info = put api q := by
+  subst ix
+  unfold deliver
+  cases hfe : flt (.upd o q) with
+  | true =>
+    simp only [if_true, applyEv]
+    exact ⟨relabel_preserves_WF wx hfo hsf h1 h2, rfl⟩
+  | false =>
+    simp only [Bool.false_eq_true, if_false]
+    refine ⟨wx, ?_⟩
+    obtain ⟨q', hq'⟩ := hf _ hfe
+    have e1 : o = q' := by injection hq'
+    have e2 : q = q' := by injection hq'
+    have : o = q := e1.trans e2.symm
+    subst this
+    rw [put_present hfo, replace_self (uniq_of_nodup wx.forest.nodup) (find_some hfo).1]
+
+theorem sys_step_synced_nd (d : Nat) (flt : Ev → Bool) (σ : Sys) (rep : Bool) (op : Op) (hf : FilterOK flt)
+    (hS : Synced d σ) (hop : NotRootAdd op) (hk : NoFlagDrop σ.api op) : Synced d (sysStep d flt σ rep op).1 := by
+  rcases op_cases σ.api op with hfk | ⟨q, sw, hp, o, rfl, hfo, hsf⟩
+  · exact sys_step_synced d flt σ rep op hf hS hop hfk
+  · obtain ⟨h1, h2⟩ := hk o hfo hsf
+    have : sysStep d flt σ rep (.upd q sw hp) =
+        ({ a := deliver flt σ.a (.upd o q), b := deliver flt σ.b (.upd o q), api := put σ.api q }, true) := by
+      cases rep <;> simp [sysStep, stepO, validUpdateO, evOf, hfo, hsf, infoEv]
+    rw [this]
+    obtain ⟨wa, ia⟩ := deliver_relabel hf hS.wa hS.ia hfo hsf h1 h2
+    obtain ⟨wb, ib⟩ := deliver_relabel hf hS.wb hS.ib hfo hsf h1 h2
+    exact ⟨wa, wb, ia, ib⟩
+
+def SysOK' (d : Nat) (flt : Ev → Bool) : Sys → List (Bool × Op) → Prop
+  | _, [] => True
+  | σ, (rep, op) :: rs => NotRootAdd op ∧ NoFlagDrop σ.api op ∧ SysOK' d flt (sysStep d flt σ rep op).1 rs
+
+theorem sys_history_synced_nd (d : Nat) (flt : Ev → Bool) (hf : FilterOK flt) (rs : List (Bool × Op)) :
+    ∀ σ, Synced d σ → SysOK' d flt σ rs → Synced d (sysRun d flt σ rs) := by
+  induction rs with
+  | nil => intro σ hS _; exact hS
+  | cons r rs ih =>
+    intro σ hS hok
+    obtain ⟨rep, op⟩ := r
+    obtain ⟨hop, hk, hrest⟩ := hok
+    simp only [sysRun]
+    exact ih _ (sys_step_synced_nd d flt σ rep op hf hS hop hk) hrest
+
+theorem replicas_converge_nd (d : Nat) (flt : Ev → Bool) (hf : FilterOK flt) (rs : List (Bool × Op)) :
+    ∀ σ, Synced d σ → SysOK' d flt σ rs →
+      Synced d (sysRun d flt σ rs) ∧ Equiv (sysRun d flt σ rs).a (sysRun d flt σ rs).b := by
+  intro σ hS hok
+  have := sys_history_synced_nd d flt hf rs σ hS hok
+  exact ⟨this, this.equiv⟩
+
+theorem replicas_converge_init_nd (d : Nat) (flt : Ev → Bool) (hf : FilterOK flt) (rs : List (Bool × Op))
+    (hok : SysOK' d flt sysInit rs) :
+    Synced d (sysRun d flt sysInit rs) ∧ Equiv (sysRun d flt sysInit rs).a (sysRun d flt sysInit rs).b :=
+  replicas_converge_nd d flt hf rs sysInit (synced_init d) hok
+
+/-! ### non-vacuity: a label-only update that GAINS allow-force-update meets `NoFlagDrop` but not `FlagsKept`; the echo
+    changes the record and the result is well-formed -/
+
+def gnP : QI := { name := 3, parent := 0, isParent := true, tree := 0, force := false, treeRoot := false,
+                  mn := [some 4], mx := [some 8], ns := [] }
+def gnA : QI := { gnP with name := 4, parent := 3, isParent := false, mn := [some 2] }
+def gnHist : List Op := [.add gnP false, .add gnA false, .upd { gnA with force := true } false false]
+
+theorem gnHist_echoOK_nd : EchoOK' 1 init gnHist := by
+  refine ⟨show gnP.name ≠ 0 by decide, trivial, show gnA.name ≠ 0 by decide, trivial, trivial, ?_, trivial⟩
+  intro o hf hs
+  have h4 : find (runEcho 1 init (gnHist.take 2)).info 4 = some gnA := by decide
+  have hf : find (runEcho 1 init (gnHist.take 2)).info 4 = some o := hf
+  rw [h4] at hf
+  cases hf
+  exact ⟨by decide, by decide⟩
+
+example : ¬ EchoOK 1 init gnHist := by
+  intro h
+  have := (h.2.2.2.2.2.1 gnA (by decide) (by decide)).1
+  revert this
+  decide
+
+example : (stepEcho 1 (runEcho 1 init (gnHist.take 2)) (.upd { gnA with force := true } false false)).2 = true ∧
+    (runEcho 1 init gnHist).info = [{ gnA with force := true }, gnP] ∧ (run 1 init gnHist).info = [gnA, gnP] := by decide
+example : WF 1 (runEcho 1 init gnHist) := reachable_echo_WF_nd 1 gnHist gnHist_echoOK_nd
+
 end KoordVerif.C15
